@@ -50,10 +50,19 @@ pub enum Op {
     Decrypt { ep: String, cid: usize, key: Vec<u8>, nonce: u64, ad: Vec<u8>, ct: Vec<u8>, ok: bool },
 }
 
+/// What the KEM object of an endpoint did (hfs build): the oracle the KEM terms are bound to.
+#[derive(Clone, Debug)]
+pub enum KemOp {
+    Gen { ep: String, k: u64, pubkey: Vec<u8> },
+    Encap { ep: String, k: u64, pubkey: Vec<u8>, ct: Vec<u8>, ss: Vec<u8> },
+    Decap { ep: String, ct: Vec<u8>, ss: Vec<u8> },
+}
+
 #[derive(Default)]
 pub struct Log {
     pub ops: Vec<Op>,
     pub cipher_ctr: usize,
+    pub kem: Vec<KemOp>,
 }
 pub type SharedLog = Arc<Mutex<Log>>;
 
@@ -181,7 +190,76 @@ impl Cipher for RecCipher {
     }
 }
 
+#[cfg(feature = "hfs")]
+struct RecKem {
+    inner: Box<dyn snow::types::Kem>,
+    ep: String,
+    log: SharedLog,
+    gen_ctr: u64,
+    enc_ctr: Mutex<u64>,
+}
+
+#[cfg(feature = "hfs")]
+impl snow::types::Kem for RecKem {
+    fn name(&self) -> &'static str {
+        self.inner.name()
+    }
+    fn pub_len(&self) -> usize {
+        self.inner.pub_len()
+    }
+    fn ciphertext_len(&self) -> usize {
+        self.inner.ciphertext_len()
+    }
+    fn shared_secret_len(&self) -> usize {
+        self.inner.shared_secret_len()
+    }
+    fn generate(&mut self, rng: &mut dyn Random) {
+        self.inner.generate(rng);
+        let k = self.gen_ctr;
+        self.gen_ctr += 1;
+        self.log.lock().unwrap().kem.push(KemOp::Gen { ep: self.ep.clone(), k, pubkey: self.inner.pubkey().to_vec() });
+    }
+    fn pubkey(&self) -> &[u8] {
+        self.inner.pubkey()
+    }
+    fn encapsulate(&self, pubkey: &[u8], shared_secret_out: &mut [u8], ciphertext_out: &mut [u8]) -> Result<(usize, usize), snow::Error> {
+        let (a, b) = self.inner.encapsulate(pubkey, shared_secret_out, ciphertext_out)?;
+        let k = {
+            let mut c = self.enc_ctr.lock().unwrap();
+            let k = *c;
+            *c += 1;
+            k
+        };
+        self.log.lock().unwrap().kem.push(KemOp::Encap {
+            ep: self.ep.clone(),
+            k,
+            pubkey: pubkey.to_vec(),
+            ct: ciphertext_out[..b.min(ciphertext_out.len())].to_vec(),
+            ss: shared_secret_out[..a.min(shared_secret_out.len())].to_vec(),
+        });
+        Ok((a, b))
+    }
+    fn decapsulate(&self, ciphertext: &[u8], shared_secret_out: &mut [u8]) -> Result<usize, snow::Error> {
+        let n = self.inner.decapsulate(ciphertext, shared_secret_out)?;
+        self.log.lock().unwrap().kem.push(KemOp::Decap {
+            ep: self.ep.clone(),
+            ct: ciphertext.to_vec(),
+            ss: shared_secret_out[..n.min(shared_secret_out.len())].to_vec(),
+        });
+        Ok(n)
+    }
+}
+
 impl CryptoResolver for RecResolver {
+    #[cfg(feature = "hfs")]
+    fn resolve_kem(&self, choice: &snow::params::KemChoice) -> Option<Box<dyn snow::types::Kem>> {
+        if self.lack.as_deref() == Some("kem") {
+            return None;
+        }
+        // the ring backend has no KEM; the KEM is always the default backend's
+        let inner = self.inner.resolve_kem(choice).or_else(|| DefaultResolver.resolve_kem(choice))?;
+        Some(Box::new(RecKem { inner, ep: self.ep.clone(), log: self.log.clone(), gen_ctr: 0, enc_ctr: Mutex::new(0) }))
+    }
     fn resolve_rng(&self) -> Option<Box<dyn Random>> {
         if self.lack.as_deref() == Some("rng") {
             return None;
